@@ -11,7 +11,7 @@ LEVEL = "model_checking"
 ASSUMPTIONS = [
     "message alphabet: for every command code the default command/response pair, plus for a spread of codes pairs with sessions, with response encryption, with a failed response, and a trailing command without response",
     "the command code and the response-encryption flag of each response are computed by the reference decoder from the command bytes, not by the implementation",
-    "all sequences of 1..n pairs over the alphabet (quick: n=2 over the full alphabet x a core alphabet; thorough: n=2 full x full, n=3 over the core alphabet)",
+    "all sequences of 1..n pairs over the alphabet (quick: n=2 over full x core and core x full, n=3 over a six-pair alphabet; thorough: n=2 full x full, n=3 over the ~45 variants of six core codes)",
 ]
 
 ATTR = {a: i for i, a in enumerate(encode.ATTRS)}
@@ -75,8 +75,10 @@ def units(tier, seed):
     for i in range(0, len(full), 4):
         us.append({"kind": "seq", "label": f"first:{full[i][0]}", "first": [l for l, _ in full[i : i + 4]], "rest": "core" if tier == "quick" else "full", "depth": 2, "seed": seed, "tier": tier})
     if tier == "thorough":
-        for i in range(len(core)):
-            us.append({"kind": "seq", "label": f"deep:{core[i][0]}", "first": [core[i][0]], "rest": "core", "depth": 3, "seed": seed, "tier": tier})
+        # all sequences of three pairs over the variants of six core codes (about 45 pairs)
+        mini = [l for l, _ in core if l.split("/")[0] in ("Startup", "GetRandom", "Hash", "CreatePrimary", "NV_Read", "PolicyPCR")]
+        for l in mini:
+            us.append({"kind": "seq", "label": f"deep:{l}", "first": [l], "rest": "mini", "mini": mini, "depth": 3, "seed": seed, "tier": tier})
     else:
         for i in range(0, len(core), 2):
             us.append({"kind": "seq", "label": f"rev:{core[i][0]}", "first": [l for l, _ in core[i : i + 2]], "rest": "full", "depth": 2, "seed": seed, "tier": tier})
